@@ -201,7 +201,7 @@ def run(ck, facts):
                     pat = ls["pat"]
                     if pat.get("k") == "bind":
                         recv_whole.add(pat.get("id"))
-                    elif ret_slot[0] == "field":
+                    elif ret_slot[0] in ("field", "whole") and ret_slot[1]:
                         for fp in pat.get("fields") or []:
                             if fp.get("n") == ret_slot[1]:
                                 recv_ids |= set(C.pat_bind_ids(fp.get("p") or fp))
